@@ -266,11 +266,11 @@ PROPS.update({
     "C03": {
         "title": "Decoders and verify are total: untrusted bytes never cause a panic",
         "level": "proof",
-        "quick": ["U-VERIFY", "U-CODEC", "U-H2P", "U-NTT-CORE", "U-NTT-POLY", "U-SIG", "U-FELT"],
+        "quick": ["U-VERIFY", "U-CODEC", "U-H2P", "U-NTT-CORE", "U-NTT-POLY", "U-SIG", "U-PK", "U-SK", "U-SKF", "U-FELT"],
         "thorough": [],
-        "undecided_clauses": ["PublicKey::from_bytes and SecretKey::from_bytes whole-function totality (units U-PK / U-SK) are not yet in this check; the secret-key field decoder is covered by U-SKF under C06"],
+        "undecided_clauses": ["the tail of SecretKey::from_bytes (G recomputation through the NTT, from_b0 = floating point) is assumed panic-free; its NTT callees are panic-free by U-NTT-*, from_b0 is not analysed"],
         "assumptions": [],
-        "level_text": "Every built-in panic obligation (index, slice range, unwrap, unreachable!/panic! arms, + - * << overflow as in an overflow-checked build) is discharged by Verus in decompress, verify, hash_to_point and the whole NTT path, for all inputs; Signature::from_bytes is total on every byte string of length <= 1300 and Felt::new on every i16 (Kani, complete).",
+        "level_text": "Every built-in panic obligation (index, slice range, unwrap, unreachable!/panic! arms, + - * << overflow as in an overflow-checked build) is discharged by Verus in decompress, verify, hash_to_point and the whole NTT path, for all inputs; PublicKey::from_bytes and the parsing part of SecretKey::from_bytes likewise (Verus, every byte string); Signature::from_bytes is total on every byte string of length <= 1300, the secret-key field decoder on every field of 1..8 bits, and Felt::new on every i16 (Kani, complete).",
         "level_note": "Assumed panic-free: sha3, BitVec/itertools internals (modelled), Vec allocation. Partial: the two key decoders are covered separately.",
         "technique": "Verus built-in safety obligations on extracted real code + Kani full-domain harnesses",
     },
@@ -280,24 +280,24 @@ PROPS.update({
     "C06": {
         "title": "Decoding is strict: only the canonical encoding of an object is accepted",
         "level": "proof",
-        "quick": ["U-SIG", "U-PK", "U-SKF", "U-FELT"],
+        "quick": ["U-SIG", "U-PK", "U-SK", "U-SKF", "U-FELT"],
         "thorough": [],
-        "undecided_clauses": ["SecretKey::from_bytes as a whole (header, length and variant checks, the three field loops) is not yet under contract; its per-field decoder is (U-SKF)"],
+        "undecided_clauses": ["the tail of SecretKey::from_bytes after the three field loops (recomputation of G via the NTT, from_b0, sign plumbing of b0) enters as an assumed contract (D4): that the decoded f, g, F are stored as b0 = [g, -f, G, -F]"],
         "assumptions": [],
-        "level_text": "Signature: complete Kani proof on the real code that from_bytes accepts a byte string of any length <= 1300 only if re-encoding reproduces it, and rejects everything that is not the variant's layout. PublicKey: unbounded Verus proof on the extracted text of from_bytes / to_bytes against the specification's layout predicate (header, 14-bit fields below q), with the theorems thm_pk_strict (accepted => to_bytes reproduces the input bit for bit) and thm_pk_roundtrip. Secret key: the field decoder/encoder pair is proved strict over all widths and bit patterns (Kani, real BitVec).",
+        "level_text": "Signature: complete Kani proof on the real code that from_bytes accepts a byte string of any length <= 1300 only if re-encoding reproduces it, and rejects everything that is not the variant's layout. PublicKey: unbounded Verus proof on the extracted text of from_bytes / to_bytes against the specification's layout predicate (header, 14-bit fields below q), with the theorems thm_pk_strict (accepted => to_bytes reproduces the input bit for bit) and thm_pk_roundtrip. Secret key: Verus proof on the extracted text of from_bytes (header, log n, variant, the three field sections with skip/take/chunks, the exact-length check) and to_bytes against the specification's layout predicate, with thm_sk_strict / thm_sk_roundtrip; the per-field codec is proved strict over all field lengths 1..8 and all bit patterns by Kani on the real BitVec.",
         "level_note": "Assumed: BitVec / itertools-chunks model in the Verus unit; Kani/CBMC; vstd. Secret-key whole-function strictness is listed as undecided.",
         "technique": "Kani full-domain contract harnesses + Verus contracts on extracted real functions",
     },
     "C05": {
         "title": "Keys and signatures survive serialisation: fixed sizes, exact round trip",
         "level": "other",
-        "quick": ["U-SIG", "U-PK", "U-SKF", "U-FELT"],
+        "quick": ["U-SIG", "U-PK", "U-SK", "U-SKF", "U-FELT"],
         "thorough": [],
-        "undecided_clauses": ["SecretKey::to_bytes/from_bytes whole-function round trip and the 1281/2305-byte size",
+        "undecided_clauses": ["equality of the recomputed G after a secret-key round trip (needs the NTRU equation, C04) and the tail of SecretKey::from_bytes (assumed contract, D4)",
                               "that key generation keeps f, g, F inside the encodable range (F8: ntru_gen never checks; no failing seed is known, so this is undecided, not a finding)",
                               "'the decoded key signs messages that verify' reduces to C01"],
         "assumptions": [],
-        "explanation": "Partial claim. Proved: signatures encode to exactly 666 / 1280 bytes and from_bytes(to_bytes(sig)) == sig for every signature object (Kani, complete); public keys encode to exactly 897 / 1793 bytes in the specification's layout and decode back to the same key (Verus, unbounded, theorems thm_pk_strict / thm_pk_roundtrip); every encodable secret-key field value round-trips through the field codec at every width (Kani). Not decided: the secret key as a whole and the range guarantee of key generation.",
+        "explanation": "Partial claim. Proved: signatures encode to exactly 666 / 1280 bytes and from_bytes(to_bytes(sig)) == sig for every signature object (Kani, complete); public keys encode to exactly 897 / 1793 bytes in the specification's layout and decode back to the same key (Verus, unbounded, theorems thm_pk_strict / thm_pk_roundtrip); secret keys whose f, g, F are in the encodable range encode to exactly 1281 / 2305 bytes in the specification's layout and f, g, F are recovered by from_bytes (Verus, unbounded; per-field codec by Kani). Not decided: that key generation stays in the encodable range (F8), equality of the recomputed G, and the assumed tail of from_bytes.",
         "level_text": "Partial: proof-level for signature and public key, field-level for the secret key; see undecided clauses.",
         "level_note": "Assumed: BitVec/chunks model, Kani/CBMC, Verus/Z3. The secret-key clauses listed as undecided are not claimed.",
         "technique": "Kani full-domain contract harnesses + Verus contracts on extracted real functions",
